@@ -1368,6 +1368,55 @@ pub fn client_positional_notification_routing() -> Value {
 	})
 }
 
+/// C09: no call, subscribe or subscribe_to_method future stays pending longer than the request timeout, also while the
+/// background task is busy inside a slow transport send and the request queue is full.
+pub fn client_futures_bounded_by_timeout() -> Value {
+	use std::time::{Duration, Instant};
+	let timeout = Duration::from_millis(300);
+	let slack = Duration::from_millis(700);
+	rt().block_on(async {
+		let mut tried = 0u64;
+		for which in ["request", "subscribe", "subscribe_to_method", "notification-free batch"] {
+			tried += 1;
+			let (c, _peer, gate, mut entered) = mock::gated_client(ClientBuilder::default().request_timeout(timeout).max_concurrent_requests(1));
+			let c = std::sync::Arc::new(c);
+			let c1 = c.clone();
+			let t1 = tokio::spawn(async move { c1.request::<u64, _>("block", rpc_params![]).await });
+			let _ = tokio::time::timeout(Duration::from_secs(2), entered.recv()).await;
+			// fills the one slot of the request queue
+			let c2 = c.clone();
+			let t2 = tokio::spawn(async move { c2.request::<u64, _>("fill", rpc_params![]).await });
+			tokio::time::sleep(Duration::from_millis(30)).await;
+			let c3 = c.clone();
+			let started = Instant::now();
+			let fut = tokio::spawn(async move {
+				match which {
+					"request" => c3.request::<u64, _>("m", rpc_params![]).await.map(|_| ()),
+					"subscribe" => c3.subscribe::<u64, _>("sub", rpc_params![], "unsub").await.map(|_| ()),
+					"subscribe_to_method" => c3.subscribe_to_method::<u64>("m").await.map(|_| ()),
+					_ => {
+						let mut b = BatchRequestBuilder::new();
+						b.insert("m", rpc_params![]).unwrap();
+						c3.batch_request::<u64>(b).await.map(|_| ())
+					}
+				}
+			});
+			let done = tokio::time::timeout(timeout + slack, fut).await;
+			let elapsed = started.elapsed();
+			gate.notify_one();
+			t1.abort();
+			t2.abort();
+			if done.is_err() {
+				return json!({"probe":"client_futures_bounded_by_timeout","disagrees":true,
+					"input": format!("request timeout 300 ms, max_concurrent_requests 1; the send task is inside a slow transport send, a second request fills the queue; then `{which}` is called"),
+					"observed": format!("still pending after {} ms", elapsed.as_millis()),
+					"expected": "the future completes (RequestTimeout) within the request timeout"});
+			}
+		}
+		json!({"probe":"client_futures_bounded_by_timeout","disagrees":false,"inputs_tried":tried,"bound":"request / subscribe / subscribe_to_method / batch_request behind a blocked send task and a full queue; timeout 300 ms, 700 ms slack"})
+	})
+}
+
 /// C05: the stream yields its notifications in order WITHOUT HOLES: once one was discarded because the consumer lagged, no later
 /// one is yielded (the send task is kept busy inside a slow transport send, so the closure request is not handled meanwhile).
 pub fn client_lagged_stream_no_holes() -> Value {
